@@ -51,7 +51,7 @@ def _enum(tier, shard, nshards):
 
 
 PHASES = [
-    HypPhase("dyadic", _case, dict(quick=4000, thorough=50000)),
+    HypPhase("dyadic", _case, dict(quick=6000, thorough=50000)),
     EnumPhase("grid7", _enum,
               lambda tier: "all ordered pairs of subsets of {0..7} on [0,7] x MRTS in "
                            "{0,2,6} x (max_tau1,max_tau2) in {(.5,1),(1,1.5),(1,2),(2,3)}"),
